@@ -137,7 +137,9 @@ def gen_history(rng, n_steps, flavour):
         nonlocal nsys
         k = rng.random()
         r = rng.randrange(nreg)
-        if k < 0.35:
+        if k < 0.03 and flavour != "strict":
+            h.append(["namespace", r, rng.choice(["symbols", "constants"])])
+        elif k < 0.35:
             sym = rng.choice(["zot", "qux", "bork", "kbork"])
             if r == 0 and flavour != "default-define":
                 r = rng.randrange(nreg)
@@ -205,6 +207,12 @@ def scripted_histories():
         out.append([["fresh", 1, "mks"], ["fresh", 1, "mks"], ["mixed", 1, 1, form, "m", "s"], ["mixed", 2, 2, form, "m", "s"],
                     ["mixed", 1, 2, form, "km", "g"], ["mixed", 2, 1, form, "km", "g"], ["mixed", 0, 1, form, "pc", "s"],
                     ["mixed", 1, 0, form, "pc", "s"]])
+    # namespaces bound to a registry (add_symbols / add_constants), then edits, then a look back
+    for kind in ("symbols", "constants"):
+        out.append([["fresh", 1, "cgs"], ["op", 1, "add", "foo", 2.0, "length", 0.0, 1], ["namespace", 1, kind],
+                    ["op", 1, "modf", "pc", 3.0], ["fresh", 1, "mks"], ["namespace", 2, kind], ["op", 2, "unit", "pc"],
+                    ["op", 0, "unit", "pc"], ["op", 0, "has", "foo"], ["route", "deepcopy_registry", 1], ["namespace", 3, kind],
+                    ["op", 3, "rm", "mile"], ["op", 1, "unit", "mile"]])
     # the right operand's symbol is unknown to the left operand's registry
     for form in MIXED_FORMS:
         out.append([["fresh", 1, "mks"], ["op", 1, "add", "zot", 3.0, "time", 0.0, 1], ["mixed", 0, 1, form, "km", "zot"],
@@ -279,6 +287,8 @@ def model_lines(st, out, dict_cells, key=None):
     if k == "newsys":
         r, name, base = st[1:]
         return [f"c13.newsys\t{r}\t{name}\t{','.join(list(base) + ['K', 'rad', 'A', 'cd', 'Np'])}"]
+    if k == "namespace":
+        return []  # hundreds of look-ups through r: the comparison goes on in `loose` mode (rows only)
     if k == "mixed":
         a, b, form, qa, qb = st[1:]
         return [f"c13.op\t{a}\tunit\t{qa}", f"c13.op\t{b}\tunit\t{qb}",
@@ -353,7 +363,8 @@ def fix_indices(hist):
         refs = {"fromdict": [], "route": [st[2]] if st[0] == "route" else [], "routeobj": [st[2]] if st[0] == "routeobj" else [],
                 "sibling": [st[2]] if st[0] == "sibling" else [], "unitcopy": [st[1]] if st[0] == "unitcopy" else [],
                 "op": [st[1]] if st[0] == "op" else [], "defunit": [st[1]] if st[0] == "defunit" else [],
-                "newsys": [st[1]] if st[0] == "newsys" else [], "mixed": st[1:3] if st[0] == "mixed" else []}.get(st[0], [])
+                "newsys": [st[1]] if st[0] == "newsys" else [], "mixed": st[1:3] if st[0] == "mixed" else [],
+                "namespace": [st[1]] if st[0] == "namespace" else []}.get(st[0], [])
         if any(r >= len(W.regs) for r in refs) or (st[0] == "fromdict" and st[1] >= len(W.dicts)):
             continue
         W.step(st)
@@ -391,7 +402,7 @@ def real_trace(hist):
             except Exception:  # noqa: BLE001
                 key = None
         out, created, through = W.step(st)
-        if st[0] == "mixed" and st[3] in LOOSE_FORMS:
+        if (st[0] == "mixed" and st[3] in LOOSE_FORMS) or st[0] == "namespace":
             loose = True
         if st[0] == "defunit" and out[0] == "done" and st[1] != 0:
             pass
